@@ -1,0 +1,30 @@
+// Copyright 2020-2025 Buf Technologies, Inc.
+//
+// Licensed under the Apache License, Version 2.0 (the "License");
+// you may not use this file except in compliance with the License.
+// You may obtain a copy of the License at
+//
+//      http://www.apache.org/licenses/LICENSE-2.0
+//
+// Unless required by applicable law or agreed to in writing, software
+// distributed under the License is distributed on an "AS IS" BASIS,
+// WITHOUT WARRANTIES OR CONDITIONS OF ANY KIND, either express or implied.
+// See the License for the specific language governing permissions and
+// limitations under the License.
+
+//go:build verif
+
+package bufmodulestore
+
+// Contracts for the gocv verifier (see /verif/DESIGN.md). Comment-only.
+//
+// C09 (sequential, error-return part): the completion marker module.yaml is written last, atomically,
+// and only after every earlier write reported success; any write failure makes the store fail.
+//@ func (p *moduleDataStore) putModuleData(ctx, moduleData) (retErr)
+//@   property C09
+//@   modifies heap, ghost.fail, ghost.wfail, ghost.sinkPaths, ghost.lastPutOptions, ghost.buf
+//@   requires !ghost.wfail
+//@   ensures failure-reported: ghost.wfail ==> retErr != nil
+//@   ensures marker-atomic: retErr == nil ==> ghost.lastPutOptions == old(ghost.lastPutOptions) || (len(ghost.lastPutOptions) == 1 && ghost.lastPutOptions[0] == storage.PutWithAtomic())
+//@   assert before "return storage.PutPath(" marker-last: !ghost.wfail
+//@   assert before "return storage.PutPath(" marker-after-files: externalModuleData.FilesDir == externalModuleDataFilesDir
